@@ -470,7 +470,7 @@ func init() {
 		if isHashType(c.Value.Type()) {
 			// hash.Hash: "It never returns an error" (documented); the hash absorbs exactly p
 			hi := e.ghost(h, "crc_hi")
-			e.setComp(h, "G.crc_hi", fmt.Sprintf("(store %s %s (+ (select %s %s) %s))", hi, r, hi, r, s.L))
+			e.setGhost(h, "crc_hi", hi, r, fmt.Sprintf("(+ (select %s %s) %s)", hi, r, s.L))
 			f.setResult(in, TupleV{Sc{s.L}, Sc{"0"}})
 			return true
 		}
@@ -582,6 +582,12 @@ func (f *frame) fillBytes(h *Heap, s SliceV, nm string) {
 	e.setComp(h, "E.uint8", fmt.Sprintf("(store %s %s %s)", arr, s.B, na))
 }
 
+// setGhost stores a new value of a ghost component at one key (recorded so that frames can be checked syntactically).
+func (e *Engine) setGhost(h *Heap, name, prev, key, val string) {
+	e.setComp(h, "G."+name, fmt.Sprintf("(store %s %s %s)", prev, key, val))
+	e.storeDefs[h.m["G."+name]] = storeDef{prev: prev, idx: key, val: val}
+}
+
 func (e *Engine) ghost(h *Heap, name string) string {
 	return e.comp(h, "G."+name, ghostSorts[name], false)
 }
@@ -598,9 +604,9 @@ func (f *frame) writerOne(h *Heap, r, plen, er string) {
 	failed := e.ghost(h, "wr_failed")
 	offered := e.ghost(h, "wr_offered")
 	calls := e.ghost(h, "wr_calls")
-	e.setComp(h, "G.wr_failed", fmt.Sprintf("(store %s %s (or (select %s %s) (not (= %s 0))))", failed, r, failed, r, er))
-	e.setComp(h, "G.wr_offered", fmt.Sprintf("(store %s %s (+ (select %s %s) %s))", offered, r, offered, r, plen))
-	e.setComp(h, "G.wr_calls", fmt.Sprintf("(store %s %s (+ (select %s %s) 1))", calls, r, calls, r))
+	e.setGhost(h, "wr_failed", failed, r, fmt.Sprintf("(or (select %s %s) (not (= %s 0)))", failed, r, er))
+	e.setGhost(h, "wr_offered", offered, r, fmt.Sprintf("(+ (select %s %s) %s)", offered, r, plen))
+	e.setGhost(h, "wr_calls", calls, r, fmt.Sprintf("(+ (select %s %s) 1)", calls, r))
 }
 
 // writerMany: io.Copy performs any number of writes totalling n bytes accepted.
@@ -613,16 +619,17 @@ func (f *frame) writerMany(h *Heap, r, n, er string) {
 	of := fmt.Sprintf("(select %s %s)", failed, r)
 	oo := fmt.Sprintf("(select %s %s)", offered, r)
 	e.assume(fmt.Sprintf("(and (=> %s %s) (=> (and %s (not %s)) (not (= %s 0))) (>= %s (+ %s %s)) (=> (not %s) (= %s (+ %s %s))))", of, nf, nf, of, er, no, oo, n, nf, no, oo, n))
-	e.setComp(h, "G.wr_failed", fmt.Sprintf("(store %s %s %s)", failed, r, nf))
-	e.setComp(h, "G.wr_offered", fmt.Sprintf("(store %s %s %s)", offered, r, no))
-	e.havocHeapComp(h, "G.wr_calls")
+	e.setGhost(h, "wr_failed", failed, r, nf)
+	e.setGhost(h, "wr_offered", offered, r, no)
+	calls := e.ghost(h, "wr_calls")
+	e.setGhost(h, "wr_calls", calls, r, e.fresh("copy.calls", "Int"))
 }
 
 // readerAdvance: n bytes were consumed from source r.
 func (f *frame) readerAdvance(h *Heap, r, n, pc string) {
 	e := f.e
 	pos := e.ghost(h, "rd_pos")
-	e.setComp(h, "G.rd_pos", fmt.Sprintf("(store %s %s (+ (select %s %s) %s))", pos, r, pos, r, n))
+	e.setGhost(h, "rd_pos", pos, r, fmt.Sprintf("(+ (select %s %s) %s)", pos, r, n))
 }
 
 // implHavoc: an in-scope implementation of the method may run on the argument; havoc what those may modify.
